@@ -60,6 +60,8 @@ def run(C, R):
         E = C.engine(cfg)
         CG = C.cg(cfg)
         R.configs.append(cfg)
+        from common import futures_start_initial as _fsi
+        R.floor('C06.R0 future-construction-paths[%s]' % cfg, _fsi(C, R, cfg, ['sync::semaphore::SemaphoreState'], 'C06.R0'), 1)
         from common import wrapper_discipline
         R.floor('C06.W wrapper-paths[%s]' % cfg, wrapper_discipline(C, R, cfg, ['sync::semaphore::SemaphoreState'], 'C06.W'), 2)
         wk = find_wakeup_fn(F, E)
